@@ -1064,6 +1064,7 @@ fn run_program(prog: &Prog, mode: &str, strategy: Strategy, sseed: u64, stats: &
         }));
     }
     // wall-clock watchdog: inconclusive, never a verdict (the logical detectors come first)
+    set_current("", true);
     let t0 = Instant::now();
     let mut panicked = false;
     let mut idle = mmv::report::IdleWatch::for_threads(6, Arc::clone(&tids));
@@ -1076,7 +1077,7 @@ fn run_program(prog: &Prog, mode: &str, strategy: Strategy, sseed: u64, stats: &
             out.violations.push(Violation {
                 props: vec!["C09"],
                 sig: "deadlock:all-threads-blocked-without-cpu-progress".into(),
-                detail: "the worker threads have not finished and the process consumed no CPU time for 6 s: every thread is blocked inside a call (outside the instrumented switch points) and nobody is left to unblock them".into(),
+                detail: format!("the worker threads have not finished and for 6 s every one of them was seen blocked (kernel state S/D, never runnable) and they consumed no CPU time: every thread is blocked inside a call (outside the instrumented switch points) and nobody is left to unblock them [{}]", mmv::report::thread_diagnostics(&idle.watched())),
                 op_index: 0,
             });
             out.hung = true;
@@ -1095,6 +1096,7 @@ fn run_program(prog: &Prog, mode: &str, strategy: Strategy, sseed: u64, stats: &
         }
         std::thread::sleep(Duration::from_micros(200));
     }
+    set_current("", false);
     if !out.hung {
         for h in handles {
             if !h.join().unwrap_or(false) {
@@ -1303,6 +1305,68 @@ fn record(report: &mut Report, v: &Violation, text: &str, prop: &str, known: &[S
 }
 
 // ---------------------------------------------------------------------------------------------
+// sentinel: the main thread itself blocks forever (final gets, sync() at quiescence, a solo run)
+// ---------------------------------------------------------------------------------------------
+
+/// (text of the program being run, true while a run's own watcher is in charge)
+static CURRENT_PROG: Mutex<(String, bool)> = Mutex::new((String::new(), false));
+
+fn set_current(text: &str, run_watched: bool) {
+    if let Ok(mut g) = CURRENT_PROG.lock() {
+        if !text.is_empty() {
+            g.0 = text.to_string();
+        }
+        g.1 = run_watched;
+    }
+}
+
+/// Watches the whole process from a background thread. While the worker threads of a run are alive
+/// the run's own watcher decides; in every other phase (joining, the final gets, sync() and the
+/// snapshots at quiescence, single-threaded solo runs) only the main thread works, and if it is
+/// blocked for good (the process consumed no CPU for 10 s) no in-process monitor would ever report it.
+fn start_sentinel(out_path: String, prop: String, engine: String) {
+    std::thread::spawn(move || {
+        // the main thread's kernel id is the process id
+        let main_tid: Arc<Mutex<Vec<u32>>> = Arc::new(Mutex::new(vec![std::process::id()]));
+        let mut idle = mmv::report::IdleWatch::for_threads(10, Arc::clone(&main_tid));
+        loop {
+            std::thread::sleep(Duration::from_millis(100));
+            let watched = CURRENT_PROG.lock().map(|g| g.1).unwrap_or(false);
+            if watched {
+                idle = mmv::report::IdleWatch::for_threads(10, Arc::clone(&main_tid));
+                continue;
+            }
+            if idle.idle() {
+                let text = CURRENT_PROG.lock().map(|g| g.0.clone()).unwrap_or_default();
+                let mut report = Report { engine, ..Default::default() };
+                report.evaluations = 1;
+                report.notes.push("shard stopped: a call on the main thread blocked forever; the counters of this shard are lost".into());
+                let v = Violation {
+                    props: vec!["C09", "C08"],
+                    sig: "progress:call-blocks-forever".into(),
+                    detail: "after the worker threads had finished (or in a single-threaded run) a call of the main thread into the cache has not returned: for 10 s the main thread was seen blocked (kernel state S/D, never runnable) and consumed no CPU time; it is blocked inside the call and no other thread exists to unblock it".into(),
+                    op_index: 0,
+                };
+                if wanted(&v, &prop) {
+                    report.stats.inc("violating_runs");
+                    report.violations.push(Report::violation_json(&v, &text, 0));
+                } else {
+                    report.other_property_alarms.insert(format!("C09:{}", v.sig), 1);
+                    report.notes.push("a call blocked forever (C09): this shard could not judge its own property".into());
+                    report.stats.inc("watchdog_fired");
+                }
+                if out_path.is_empty() {
+                    println!("{}", report.to_json().dump());
+                } else {
+                    report.write(&out_path);
+                }
+                mmv::report::exit_now(0);
+            }
+        }
+    });
+}
+
+// ---------------------------------------------------------------------------------------------
 // modes
 // ---------------------------------------------------------------------------------------------
 
@@ -1399,6 +1463,7 @@ fn mode_programs(args: &Args, mode: &str) {
         for si in 0..nsched {
             let sname = strategies[(si as usize) % strategies.len()];
             let sseed = rng.next_u64() >> 16;
+            set_current(&prog.text(mode, sname, sseed), false);
             let r = run_program(&prog, mode, parse_strategy(sname), sseed, &mut report.stats, false);
             run_idx += 1;
             report.evaluations += 1;
@@ -1447,7 +1512,7 @@ fn mode_programs(args: &Args, mode: &str) {
     }
     if report.notes.iter().any(|n| n.starts_with("shard stopped early")) {
         // worker threads of the abandoned run may still be alive
-        std::process::exit(0);
+        mmv::report::exit_now(0);
     }
 }
 
@@ -2047,7 +2112,7 @@ fn mode_iter(args: &Args) {
                     } else {
                         report.write(&out_path);
                     }
-                    std::process::exit(0);
+                    mmv::report::exit_now(0);
                 }
             }
         }
@@ -2369,6 +2434,7 @@ fn mode_observers(args: &Args) {
         let observers = rng.range(1, 3) as usize;
         let oseed = rng.next_u64() >> 8;
         report.evaluations += 1;
+        set_current(&prog.text("observers", &format!("{}", observers), oseed), false);
         report.stats.inc("observed_programs");
         if let Some(why) = observed_difference(&prog, observers, oseed, &mut report.stats) {
             report.stats.inc("violating_runs");
@@ -2434,7 +2500,11 @@ fn main() {
             }
         }
     }
-    match args.str("mode", "baton").as_str() {
+    let mode_name = args.str("mode", "baton");
+    if matches!(mode_name.as_str(), "baton" | "park" | "stress" | "chase" | "observers") {
+        start_sentinel(args.str("out", ""), args.str("prop", "all"), format!("conmon-{}", mode_name));
+    }
+    match mode_name.as_str() {
         "baton" => mode_programs(&args, "baton"),
         "park" => mode_programs(&args, "park"),
         "stress" => mode_programs(&args, "stress"),
